@@ -16,6 +16,16 @@ VERIF = os.environ.get("VERIF_DIR", os.path.dirname(HERE))
 BIN = os.path.join(VERIF, "harness", "target-loom", "release", "loommc")
 SCRATCH = os.environ.get("JBKMC_SCRATCH_ROOT") or "/dev/shm"
 PACK = f"{SCRATCH}/jbkmc-loompack-{os.getpid()}.jbkc"
+TOP = f"{SCRATCH}/jbkmc-loomtop-{os.getpid()}"
+
+
+def clean(x):
+    """argument as shown in reports: scratch paths dropped, the top-level containers named"""
+    if x.startswith(TOP):
+        return "<5-file container" + x[len(TOP):] + ">"
+    if x.startswith(SCRATCH):
+        return ""
+    return x
 
 
 def run(cfg, timeout):
@@ -34,7 +44,7 @@ def run(cfg, timeout):
 
 
 RULES = {
-    "c07": "stateless exploration with loom of the real compression.rs (create_sync_vec, decode_to_end, SyncVecRd, impl Source for SeekableDecoder) and FileSource::read, and (engine B) of the real ContentPack reader: cluster cache Mutex<LruCache> of capacity 1 or 2 (eviction at every other access), the cluster RwLock raw->plain switch (two readers racing to start the decoder), background decoders with 4-byte chunks and the shared BufReader of the file, two readers doing 2+1 (or 2+2) content reads over {two blobs of one compressed cluster, a raw cluster, another compressed cluster}; engine A: one decoder thread fed by a scripted Read (chunks of 2 bytes, short-read scripts {2},{1},{1,2}) and R readers each doing one operation from {get_slice(o,n) for every sub-range incl. one past the end, read(o, long/1), read_exact, stream to the end}; every operation tuple is a configuration; all interleavings at loom's scheduling points (mutex, condvar, thread) with preemption bound 0,1,2 (3 and unbounded where listed); one loom cell per buffer byte makes the unsynchronised buffer accesses visible to the race detector; evaluations = executions (complete schedules), distinct_nontrivial = configurations (operation tuple x short-read script)",
+    "c07": "stateless exploration with loom of the real compression.rs (create_sync_vec, decode_to_end, SyncVecRd, impl Source for SeekableDecoder) and FileSource::read, and (engine B) of the real ContentPack reader: cluster cache Mutex<LruCache> of capacity 1 or 2 (eviction at every other access), the cluster RwLock raw->plain switch (two readers racing to start the decoder), background decoders with 4-byte chunks and the shared BufReader of the file, two readers doing 2+1 (or 2+2) content reads over {two blobs of one compressed cluster, a raw cluster, another compressed cluster}; (engine B2) of the real Container: two threads making the first accesses (1+1 and 2+1 operations over content reads in 3 packs, index/entry/value-store opening, check(), unknown pack id) to a freshly opened 5-file container (uncompressed, zstd, lz4, one pack file missing), with a scheduling point at every OnceLock operation of the pack slots, the store caches and the check-info cells; engine A: one decoder thread fed by a scripted Read (chunks of 2 bytes, short-read scripts {2},{1},{1,2}) and R readers each doing one operation from {get_slice(o,n) for every sub-range incl. one past the end, read(o, long/1), read_exact, stream to the end}; every operation tuple is a configuration; all interleavings at loom's scheduling points (mutex, condvar, thread) with preemption bound 0,1,2 (3 and unbounded where listed); one loom cell per buffer byte makes the unsynchronised buffer accesses visible to the race detector; evaluations = executions (complete schedules), distinct_nontrivial = configurations (operation tuple x short-read script)",
     "c08": "stateless exploration with loom of the real clusterwriter.rs (ClusterWriterProxy, W ClusterCompressor threads, the ClusterWriter thread, dispatch/fusion channels, back-pressure condvar) driven through ContentPackCreator with an in-memory recipient, 1 blob per cluster (override), every insertion program over {c: hint Yes, r: hint No} of length 1..4 (W=1) / 1..3 (W=2), programs with zero-length contents (e: empty/Yes, f: empty/No) plus 5 and 6 compressed clusters beyond the back-pressure limit, preemption bound 0,1,2 (3 on the short programs); per execution: creation terminates (no deadlock), addresses as inserted, the produced pack is decoded by the independent decoder and every content resolves to its bytes; evaluations = executions, distinct_nontrivial = (program, W, bound) configurations",
 }
 
@@ -55,6 +65,15 @@ def c07_jobs(add, ncpu, thorough):
     add(["container", "--pack", PACK, "--cache", "1"], [0, 1, 2], 4)
     add(["container", "--pack", PACK, "--cache", "1", "--combos", "full"], [2], ncpu)
     add(["container", "--pack", PACK, "--cache", "2"], [2], 4)
+    # engine B2: the real Container (lazy per-pack OnceLock slots, VecCache of entry/value stores,
+    # check-info cells) - two threads making the FIRST accesses to a freshly opened container:
+    # reader A one or two operations, reader B one, over {first content of each of the 3 packs,
+    # another content of pack 1, open the index and read entry 0, unknown pack id, check()};
+    # uncompressed / zstd / lz4 containers, and one whose pack 2 file is missing
+    for d, extra in ((TOP + "-none", ["--check", "yes"]), (TOP + "-zstd", []), (TOP + "-lz4", []), (TOP + "-missing", ["--missing", "2"])):
+        add(["toplevel", "--dir", d] + extra, [0, 1, 2], 2)
+        if thorough:
+            add(["toplevel", "--dir", d] + extra, [3], ncpu)
     if thorough:
         add(["container", "--pack", PACK, "--cache", "1"], [3], ncpu)
         add(["container", "--pack", PACK, "--cache", "1", "--combos", "full"], [3], ncpu)
@@ -124,6 +143,14 @@ def main():
             sys.stderr.write("MACHINERY-ERROR cannot generate the pack for the container engine: " + g.stderr[-200:] + "\n")
             json.dump({"engine": "loomdrv.py", "property": "C07", "machinery_errors": ["genpack failed"], "evaluations": 0, "distinct_nontrivial": 0, "violations": []}, open(out, "w") if out else sys.stdout)
             sys.exit(2)
+        corpusmc = os.path.join(VERIF, "harness", "target", "release", "corpusmc")
+        for name, comp in (("none", "None"), ("zstd", "Zstd(5)"), ("lz4", "Lz4(1)"), ("missing", "None")):
+            g = subprocess.run([corpusmc, "gentop", "--dir", f"{TOP}-{name}", "--comp", comp], capture_output=True, text=True)
+            if g.returncode != 0 or not os.path.exists(f"{TOP}-{name}/expect.json"):
+                sys.stderr.write("MACHINERY-ERROR cannot generate the container for the top-level engine: " + g.stderr[-200:] + "\n")
+                json.dump({"engine": "loomdrv.py", "property": "C07", "machinery_errors": ["gentop failed"], "evaluations": 0, "distinct_nontrivial": 0, "violations": []}, open(out, "w") if out else sys.stdout)
+                sys.exit(2)
+        os.remove(f"{TOP}-missing/c.extra2.jbkc")
     (c07_jobs if sub == "c07" else c08_jobs)(add, ncpu, thorough)
     # distinct file names for concurrent `file` runs
     for k, j in enumerate(jobs):
@@ -139,8 +166,8 @@ def main():
     interior = 0
     by_cfg = {}
     for r in results:
-        name = " ".join(x for x in r["cfg"] if not x.startswith(SCRATCH))
-        
+        name = " ".join(clean(x) for x in r["cfg"] if clean(x))
+
         if r.get("cap"):
             caps.append(f"{name}: not finished within {cap_s}s")
             continue
@@ -166,7 +193,7 @@ def main():
         executions += r["executions"]
         configs += r["configs"]
         interior += r.get("interior_boundary_waits", 0)
-        key = " ".join(x for x in r["cfg"][: r["cfg"].index("--bound")] if not x.startswith(SCRATCH))
+        key = " ".join(clean(x) for x in r["cfg"][: r["cfg"].index("--bound")] if clean(x))
         b = by_cfg.setdefault(key, {"executions": 0, "bounds": set()})
         b["executions"] += r["executions"]
         b["bounds"].add(r["cfg"][r["cfg"].index("--bound") + 1])
@@ -178,6 +205,8 @@ def main():
                 cls = "data race on the shared decode buffer"
             elif "resolves to other bytes" in e or "does not decode" in e or "decoder rejects" in e:
                 cls = "the created pack does not hold what was inserted"
+            elif "answered as not in the manifest" in e or "reported MISSING" in e or "no such content" in e:
+                cls = "a valid content address is not resolved"
             elif "assertion" in e or "left" in e:
                 cls = "a reader got wrong bytes / wrong length" if sub == "c07" else "assertion on the created pack failed"
             else:
